@@ -257,8 +257,8 @@ class SimRaw(io.RawIOBase):
         w.clock.advance(LATENCY["disk"])
         f = w.plan.lookup(w.log.op_index, "disk", idx)
         sticky = w.plan.sticky.get((w.log.op_index, "disk"))
-        if f is None and sticky is not None:
-            f = sticky
+        if sticky is not None:
+            f = sticky  # a full / failed device stays that way until the operation ends
         if f is not None and f["kind"] in ("enospc", "eio_write"):
             w.fire(f)
             if f.get("sticky"):
@@ -484,10 +484,16 @@ class _Capture(logging.Handler):
 
 
 class _RaisingHandler(logging.Handler):
-    def emit(self, record):
-        raise RuntimeError("simulated: log handler failure")
+    """A handler whose output stream is broken: like every stdlib handler it
+    catches the failure inside emit() and reports it through handleError()."""
 
-    def handleError(self, record):  # swallow silently, like logging.raiseExceptions=False
+    def emit(self, record):
+        try:
+            raise OSError(errno.EPIPE, "simulated: log stream is gone")
+        except Exception:
+            self.handleError(record)
+
+    def handleError(self, record):  # as with logging.raiseExceptions = False
         return None
 
 
